@@ -250,6 +250,7 @@ structure Args where
   moduleDirectory : Option Str
   moduleFilename : Option Str
   memId : Str                      -- `hex(id(self))`
+  cwd : Str                        -- `os.getcwd()` (absolute)
 deriving Repr
 
 /-- Python truthiness of an optional string -/
@@ -272,11 +273,14 @@ def templateUri (a : Args) : Str :=
   else if truthy a.filename then Path.normpath (a.filename.getD [])
   else Generated.Paths8.memoryPrefix.toList ++ a.memId
 
+/-- `os.path.abspath(p)`: `normpath(join(os.getcwd(), p))` -/
+def absPath (cwd p : Str) : Str := Path.normpath (Path.joinPath cwd p)
+
 inductive Compile where
   | uriRejected                    -- `TemplateLookupException` (u_norm starts with `..`)
   | text                           -- `_compile_text(self, text, filename)`, `ModuleInfo(module, None, …, code, text, uri)`
   | fileMemory                     -- `_compile_from_file(None, filename)`: the file's bytes compiled in memory
-  | fileModule (path : Str)        -- `_compile_from_file(path, filename)`; `path` before `os.path.abspath` when derived
+  | fileModule (path : Str)        -- `_compile_from_file(path, filename)`; `path` is absolute (`os.path.abspath`)
   | noSource                       -- `RuntimeException("Template requires text or filename")`
 deriving DecidableEq, Repr
 
@@ -287,9 +291,9 @@ def selectPath (a : Args) : Compile :=
     | none => match a.filename with
       | none => .noSource
       | some _ => match a.moduleFilename with
-        | some p => .fileModule p
+        | some p => .fileModule (absPath a.cwd p)
         | none => match a.moduleDirectory with
-          | some d => .fileModule (Path.modulePath d (templateUri a))
+          | some d => .fileModule (absPath a.cwd (Path.modulePath d (templateUri a)))
           | none => .fileMemory
 
 /-- does this path write the magic encoding comment? -/
